@@ -64,4 +64,9 @@ CHECKS = {
         "note": "Trusted: TLC; one fraction's life cycle at a time (plus a neighbour); file operations atomic and durable in program order; .frac-cache rewrite crash points are covered by the four cache-file variants, not by hooks inside SaveCacheToDisk. Two defects of the pinned tree were repaired (fix: badff25, b2e7d41).",
         "technique": "TLA+ life-cycle and retention-order specs model-checked by TLC; crash states replayed on the real loader; hook-recorded maintenance traces validated against the specs",
     },
+    "C10": {
+        "text": "BulkIngest.tla transcribes the /_bulk handler as a state machine (one action per bufio.ReadLine, Process and StoreDocuments call; sizes as numbers with M = max-document-size = reader buffer; content as line classes and time classes) and defines the property as the reference Allowed(body); TLC checks TypeOK, NothingBeforeTheEnd, RejectedStoresNothing, ItemsEqualStored, StoredOnceInOrder, ImplMeetsProperty and the action property StoreOnlyAtFinish exhaustively for bodies of <=4 (thorough 5) lines and all single documents of the time alphabet, plus seeded simulation of longer bodies. Every final state is replayed: seeded concrete bytes per class are sent through the real BulkHandler + bulk.Ingestor with a capturing StorageClient (plain/gzip, several read chunkings) and status, item count, stored documents byte for byte and in order, meta sizes and ID times are compared with the allowed outcomes; a sample is appended to a real store and fetched back.",
+        "note": "Trusted: TLC; class-level exhaustive, byte-level sampled (verbatim-ness and JSON classes are decided on seeded representatives); lines of M-1 and M bytes may be stored or skipped; the handler's clock cannot be pinned (offsets in 2 s ticks, boundary >= vs > not detectable). One defect repaired (fix: 8c485a0); one known finding (insane-json accepts lexically invalid JSON) is listed in known_findings.json.",
+        "technique": "TLA+ state machine of the bulk handler over line/time classes checked by TLC (exhaustive + -simulate), final states replayed through the real HTTP handler and ingestor",
+    },
 }
